@@ -16,7 +16,7 @@ import subprocess
 import sys
 
 VERIF = os.path.dirname(os.path.dirname(os.path.abspath(__file__)))
-SCR = '/tmp/sc'
+SCR = '/tmp/sc-' + (sys.argv[2] if len(sys.argv) > 2 else 'x')
 ENV = dict(os.environ, CARGO_NET_OFFLINE='true', CARGO_TARGET_DIR=os.path.join(SCR, 'target'))
 
 
@@ -53,7 +53,7 @@ def main():
         os.makedirs(os.path.join(d, 'tests'), exist_ok=True)
         tname = f'seed_demo_{prop.lower()}_{n}'
         shutil.copy(demo, os.path.join(d, 'tests', tname + '.rs'))
-        rc, out = sh(f'cargo test --offline --test {tname} 2>&1 | tail -5', d)
+        rc, out = sh(f'cargo test --offline --all-features --test {tname} 2>&1 | tail -5', d)
         r['demo_on_clean'] = 'pass' if 'test result: ok' in out else 'FAIL: ' + out[-300:]
         os.remove(os.path.join(d, 'tests', tname + '.rs'))
         rc, out = sh(f'git apply --unsafe-paths -p1 --directory={d} {os.path.join(src, diff)} 2>&1 || patch -p1 -d {d} < {os.path.join(src, diff)}', '/')
@@ -67,7 +67,7 @@ def main():
         ok = re.findall(r'test result: ok\. (\d+) passed', out)
         r['suite_with_change'] = 'pass (%s)' % '+'.join(ok) if ok and 'FAILED' not in out else 'FAIL: ' + out[-300:]
         shutil.copy(demo, os.path.join(d, 'tests', tname + '.rs'))
-        rc, out = sh(f'cargo test --offline --test {tname} 2>&1 | grep -E "^test result|panicked" | head -4', d)
+        rc, out = sh(f'cargo test --offline --all-features --test {tname} 2>&1 | grep -E "^test result|panicked" | head -4', d)
         r['demo_with_change'] = 'fails (as required)' if 'FAILED' in out or 'failed' in out else 'PASSES?: ' + out[-300:]
         os.remove(os.path.join(d, 'tests', tname + '.rs'))
         r['confirmed'] = (r['demo_on_clean'] == 'pass' and r['applied'] and r['builds']
